@@ -36,15 +36,30 @@ def main() -> int:
             return 0
         if hasattr(mod, "pre_build"):
             mod.pre_build(ctx)           # translator: regenerate Lean facts from /repo's source
-        build_ok, log = (True, "") if a.no_build else fw.lake_build(list(mod.PROPS) + list(getattr(mod, "EXTRA_BUILD", [])))
-        if not build_ok and not getattr(mod, "GENERATED", False):
-            # nothing in a hand-written model depends on /repo: a failing build is our own breakage
-            print(log[-3000:], file=sys.stderr)
-            raise fw.Infra("lake build failed for a hand-written model")
-        aud = fw.audit(list(mod.PROPS)) if build_ok else {"theorems": [], "obligations": 0, "discharged": 0, "failed": ["build failed"],
-                                                           "axioms_used": [], "closure": [], "raw": ""}
+        props = list(mod.PROPS)
+        build_ok, log = (True, "") if a.no_build else fw.lake_build(props + list(getattr(mod, "EXTRA_BUILD", [])))
+        broken_mods = []
+        if not build_ok:
+            if not getattr(mod, "GENERATED", False):
+                # nothing in a hand-written model depends on /repo: a failing build is our own breakage
+                print(log[-3000:], file=sys.stderr)
+                raise fw.Infra("lake build failed for a hand-written model")
+            # a module regenerated from /repo's source no longer checks: build the property modules one by one, audit the
+            # ones that still build, and carry the broken ones as undischarged obligations
+            for m in props:
+                ok1, log1 = fw.lake_build([m])
+                if not ok1:
+                    broken_mods.append(m)
+                    log = log1
+        good = [m for m in props if m not in broken_mods]
+        aud = fw.audit(good) if good else {"theorems": [], "obligations": 0, "discharged": 0, "failed": [], "axioms_used": [], "closure": [], "raw": ""}
+        for m in broken_mods:
+            names = fw.theorems_of(m)
+            aud["theorems"] += names
+            aud["obligations"] += max(1, len(names))
+            aud["failed"].append(f"{m} no longer builds against the facts regenerated from the source ({', '.join(names)})")
         if a.tier == "thorough" and build_ok and not os.environ.get("VERIF_NO_LEANCHECKER"):
-            p = subprocess.run(["lake", "env", "leanchecker", *mod.PROPS], cwd=fw.LEAN, capture_output=True, text=True, timeout=3000)
+            p = subprocess.run(["lake", "env", "leanchecker", *good], cwd=fw.LEAN, capture_output=True, text=True, timeout=3000)
             ctx.extra["leanchecker"] = "ok" if p.returncode == 0 else (p.stdout + p.stderr)[-500:]
             if p.returncode != 0:
                 aud["failed"].append("leanchecker rejected the compiled modules")
